@@ -338,7 +338,7 @@ InContract(st, o) ==
     IF op = "ctor" THEN ~st.alive
     ELSE /\ st.alive
          /\ CASE op = "dtor"   -> Manual => ~IsActive(st)
-              [] op = "copy"   -> TRUE
+              [] op \in {"copy", "move"} -> TRUE
               [] op = "attach" -> HasLog
               [] op = "obs"    -> TRUE
               [] op = "enter"  -> Manual /\ ~IsActive(st)
@@ -370,7 +370,7 @@ CallStep(st, o) ==
         s1 ==
         CASE op = "ctor"   -> LET c == [InitSt EXCEPT !.alive = TRUE, !.call = o, !.logger = HasLog /\ o.p # 0] IN
                               IF Manual THEN c ELSE [c EXCEPT !.k = <<F0("ie")>>]
-          [] op = "copy"   -> s0         \* the copy continues the original's history
+          [] op \in {"copy", "move"} -> s0         \* a copy / move-constructed machine continues the original's history
           [] op = "dtor"   -> IF Manual THEN [s0 EXCEPT !.alive = FALSE]
                               ELSE [s0 EXCEPT !.k = <<F0("fx"), F0("dead")>>]
           [] op = "enter"  -> [s0 EXCEPT !.k = <<F0("ie")>>]
